@@ -241,6 +241,37 @@ func build(spec *checkSpec) (string, string) {
 		b, _ := json.MarshalIndent(ov, "", " ")
 		os.WriteFile(ovPath, b, 0o644)
 	}
+	if len(spec.Knobs) > 0 {
+		ovPath := filepath.Join(inst, "overlay.json")
+		var ov struct{ Replace map[string]string }
+		if b, err := os.ReadFile(ovPath); err == nil {
+			json.Unmarshal(b, &ov)
+		}
+		if ov.Replace == nil {
+			ov.Replace = map[string]string{}
+		}
+		for rel, kv := range spec.Knobs {
+			orig := filepath.Join(repoDir, rel)
+			src := orig
+			if p, ok := ov.Replace[orig]; ok {
+				src = p
+			}
+			data, err := os.ReadFile(src)
+			if err != nil {
+				die("knob %s: %v", rel, err)
+			}
+			if !strings.Contains(string(data), kv[0]) {
+				die("knob %s: text %q not found (has /repo changed that constant?)", rel, kv[0])
+			}
+			out := filepath.Join(inst, "knob_"+strings.ReplaceAll(rel, "/", "_"))
+			if err := os.WriteFile(out, []byte(strings.Replace(string(data), kv[0], kv[1], 1)), 0o644); err != nil {
+				die("knob %s: %v", rel, err)
+			}
+			ov.Replace[orig] = out
+		}
+		b, _ := json.MarshalIndent(ov, "", " ")
+		os.WriteFile(ovPath, b, 0o644)
+	}
 	bin := filepath.Join(bdir, "bin", spec.ID+"-"+spec.Harness+".test")
 	bargs := []string{"test", "-c", "-overlay", filepath.Join(inst, "overlay.json"), "-o", bin}
 	if spec.Race {
